@@ -684,3 +684,58 @@ def count_nonzero(x):
         b = v if isinstance(v, (bool, SB)) else _sop(v, 0, '!=')
         acc = _sop(acc, b, '+')
     return acc
+
+
+# -- integer -> float64 conversion (exact model for |v| < 2^55) ---------------------------------
+def _float_of_int(v):
+    """value of float(v) for a symbolic Int: exact below 2^53, round-half-even to multiples of 2 / 4 up to 2^55"""
+    if not (isinstance(v, SV) and v.is_int()):
+        return v
+    e = v.e
+    ex = cur()
+    ex.assume(z3.And(e > -(2 ** 55), e < 2 ** 55))
+
+    def rnd(s):
+        q, r = e / s, e % s         # z3: floor division / non-negative remainder for positive s
+        return z3.If(2 * r < s, q * s, z3.If(2 * r > s, (q + 1) * s, z3.If(q % 2 == 0, q * s, (q + 1) * s)))
+    a = z3.If(e >= 0, e, -e)
+    out = z3.If(a < 2 ** 53, e, z3.If(a < 2 ** 54, rnd(2), rnd(4)))
+    return SV(z3.ToReal(out))
+
+
+_array_plain = array
+
+
+def _is_float_dtype(dtype):
+    return getattr(dtype, '__name__', dtype) in ("float", "float64", "double")
+
+
+def array(x, dtype=None):      # noqa: F811
+    isf = _is_float_dtype(dtype)
+    r = _array_plain(x, None if isf else dtype)
+    if isf and isinstance(r, Arr):
+        r = Arr([_float_of_int(v) if isinstance(v, SV) else (float(v) if isinstance(v, int) and not isinstance(v, bool) else v) for v in r.a])
+    return r
+
+
+asarray = array
+
+
+def argsort(x, kind=None, **kw):
+    """stable argsort (comparisons on symbolic keys fork)"""
+    xs = _items(x)
+    import functools
+
+    def cmp(i, j):
+        if bool(_sop(xs[i], xs[j], '<')):
+            return -1
+        if bool(_sop(xs[j], xs[i], '<')):
+            return 1
+        return -1 if i < j else (1 if i > j else 0)
+    return Arr(sorted(range(len(xs)), key=functools.cmp_to_key(cmp)))
+
+
+def sort(x, **kw):
+    xs = _items(x)
+    idx = argsort(xs)
+    return Arr([xs[i] for i in idx.a])
